@@ -28,9 +28,10 @@ def budget(tier):
 
 
 def gen(R, tier):
-    if R.chance(0.12):
-        # sulfur next to aromatic rings ('Sc' in the text), descriptors after such letter pairs
-        case = resgen.gen_cut_string(R, tier, min_frags=2, classes=[c for c in molgen.MOL_CLASSES if c['name'] == 'thioaryl'])
+    if R.chance(0.2):
+        # sulfur next to aromatic rings ('Sc' in the text), descriptors after such letter pairs; lower-case quinoid
+        # rings with cut exocyclic double bonds; fused aromatic systems
+        case = resgen.gen_cut_string(R, tier, min_frags=2, classes=[c for c in molgen.MOL_CLASSES if c['name'] in ('thioaryl', 'quinoid', 'quinoid', 'fused_aromatic')])
     else:
         case = resgen.gen_resolvable(R, tier, kinds=('fragset', 'fragset', 'fragset', 'cut', 'levels', 'multicut', 'shared'))
     if case is not None:
